@@ -505,6 +505,9 @@ type WrittenHeader struct {
 
 var HeadersWritten []*WrittenHeader
 
+// PlainDataWrites counts tar data writes made while no encrypting writer was forwarding ciphertext.
+var PlainDataWrites int
+
 func (st *twState) finish() error {
 	if st.cur != nil {
 		if st.cur.Written < st.cur.Size {
@@ -595,6 +598,9 @@ func TarWriterWrite(tw *tar.Writer, p []byte) (int, error) {
 		tooLong = true
 	}
 	nn := Concretize(int(n))
+	if InsideEnc == 0 {
+		PlainDataWrites++ // bytes that reach the tape without passing through an encrypting writer (C09)
+	}
 	st.cur.Data = append(st.cur.Data, p[:nn]...)
 	st.cur.Written += int64(nn)
 	st.f.T.Len = st.cur.End()
